@@ -12,7 +12,10 @@ macro_rules! vec_ffi {
         /// Rust-side copy: `out` (a default vector) becomes a clone of `src`
         #[no_mangle]
         pub extern "C" fn $clone(src: &Vector<$t>, out: &mut Vector<$t>) {
-            *out = src.clone();
+            // `out` is a freshly default-constructed vector (the static empty one): it is
+            // overwritten without being dropped - nothing is owned by it - so that every
+            // Rust-side clone really adds one reference, also to the static empty header
+            unsafe { std::ptr::write(out, src.clone()) };
         }
         /// Rust-side push (detaches a shared buffer first)
         #[no_mangle]
